@@ -776,29 +776,74 @@ def check_divisibility(facts, rep):
         rep.saw(b)
     probs = []
     # D1
+    from symex import apply_closure
+
+    def vpaths(body, havoc):
+        """return / back-edge paths of div as (end, return text, conditions), `cond.then(|| ..)` expanded into its two cases"""
+        out = []
+        for p in SymEx(body, havoc_loops=havoc, max_paths=2000).run():
+            conds = [(sk(e.term), e.value != 0) for e in p.branches() if 'Overflow' not in sk(e.term)]
+            r = strip(p.ret) if p.ret is not None else None
+            if p.end == 'return' and r is not None and r[0] == 'call' and r[1].split('::')[-1] == 'then' and len(r[2]) == 2 and strip(r[2][1])[0] == 'closure':
+                c0 = sk(r[2][0])
+                neg = False
+                while c0.startswith('Not(') and c0.endswith(')'):
+                    c0, neg = c0[4:-1], not neg
+                out.append(('return', 'Option::None{}', conds + [(c0, neg), ], []))
+                for q in apply_closure(r[2][1], [], havoc_loops=havoc) or []:
+                    qc = [(sk(e.term), e.value != 0) for e in q.branches() if 'Overflow' not in sk(e.term)]
+                    out.append((q.end, 'Option::Some{0: %s}' % sk(q.ret) if q.ret is not None else None, conds + [(c0, not neg)] + qc, q.calls()))
+            else:
+                out.append((p.end, sk(p.ret) if p.ret is not None else None, conds, p.calls()))
+        return out
     rets = set()
-    for p in SymEx(need[0], max_paths=2000).run():
-        if p.end != 'return':
-            continue
-        rets.add((sk(p.ret), tuple((sk(e.term), e.value != 0) for e in p.branches() if 'Overflow' not in sk(e.term))))
+    for end, ret, conds, _ in vpaths(need[0], False):
+        if end == 'return':
+            rets.add((ret, tuple(conds)))
     want0 = ('Option::None{}', (('is_zero(arg1)', True),))
     want1 = ('Option::Some{0: 0}', (('is_zero(arg1)', False), ('is_zero(&rem(&clone(arg1), arg2))', False)))
+    unknown1 = []
     if want0 not in rets:
-        probs.append('div(0, c) is not None')
+        if any(r.startswith('Option::Some') and c == (('is_zero(arg1)', True),) for r, c in rets):
+            probs.append('div(0, c) is not None')
+        else:
+            unknown1.append('no path answers None for a = 0')
     if want1 not in rets:
-        probs.append('div(a, c) with c not dividing a is not Some(0): %s' % sorted(r for r in rets if r[0].startswith('Option::Some'))[:1])
+        firsts = sorted(r for r, c in rets if r.startswith('Option::Some') and c == want1[1])
+        if firsts and all(re.match(r'Option::Some\{0: -?\d+\}$', x) for x in firsts):
+            probs.append('div(a, c) with c not dividing a is not Some(0): %s' % firsts[:1])
+        else:
+            unknown1.append('the first answer Some(0) was not found: %s' % sorted(r for r, _ in rets)[:3])
     step = set()
+    for end, ret, conds, calls in vpaths(need[0], True):
+        if end == 'backedge':
+            cn = [(re.sub(r'loop[\w:]+_\d+', 'L', t), v) for t, v in conds]
+            divs = [tuple(re.sub(r'&mut _\d+|&mut _f\d+_\d+', 'A', sk(a)) for a in e.args) for e in calls if e.name.split('::')[-1] == 'div_assign']
+            step.add((('is_zero(&rem(&L, arg2))', True) in cn, tuple(divs)))
+    incs = set()
     for p in SymEx(need[0], havoc_loops=True, max_paths=2000).run():
-        if p.end == 'backedge':
-            conds = [(re.sub(r'loop\d+_\d+', 'L', sk(e.term)), e.value != 0) for e in p.branches()]
-            incr = [c for c in conds if c[0].startswith('AddWithOverflow(L, 1)')]
-            divs = [tuple(re.sub(r'&mut _\d+', 'A', sk(a)) for a in e.args) for e in p.calls() if e.name.split('::')[-1] == 'div_assign']
-            step.add((('is_zero(&rem(&L, arg2))', True) in conds, bool(incr), tuple(divs)))
-    if step != {(True, True, (('A', 'arg2'),))}:
-        probs.append('the loop of div is not `while (a %% c).is_zero() { a /= c; k += 1 }` (%s)' % sorted(step, key=str))
+        for pth in [p] + [q for e in p.calls('then') if len(e.args) == 2 for q in (apply_closure(e.args[1], [], havoc_loops=True) or [])]:
+            if pth.end == 'backedge':
+                for k_, v_ in pth.state.mem.items():
+                    m = re.match(r'AddWithOverflow\(loop[\w:]+_\d+, (\d+)\)\.0$', sk(v_))
+                    if m:
+                        incs.add(int(m.group(1)))
+                for e in pth.branches():
+                    m = re.match(r'AddWithOverflow\(loop[\w:]+_\d+, (\d+)\)\.1$', sk(e.term))
+                    if m:
+                        incs.add(int(m.group(1)))
+    if step != {(True, (('A', 'arg2'),))} or incs != {1}:
+        if incs and incs != {1}:
+            probs.append('the counter of div is stepped by %s per division' % sorted(incs))
+        elif step and all(len(d) <= 1 for _, d in step) and any(not d for _, d in step) and incs == {1}:
+            probs.append('the loop of div counts a division without dividing (%s)' % sorted(step, key=str))
+        else:
+            unknown1.append('the loop of div was not read as `while (a %% c).is_zero() { a /= c; k += 1 }`: %s / +%s' % (sorted(step, key=str), sorted(incs)))
     inst = 'misc::div|number of exact divisions by c, None for 0'
     if probs:
         rep.violation('E8.F10-divisibility', inst, '; '.join(probs), where=need[0].where())
+    elif unknown1:
+        rep.indet('E8.F10: misc::div outside the recognised fragment: %s' % '; '.join(unknown1)[:300])
     else:
         rep.ok('E8.F10-divisibility', inst, 'None | Some(0) | +1 per exact division')
     # D2
